@@ -263,7 +263,12 @@ Print Assumptions C07_model_total_stream.
                             n id on (agree_upto (n id))
      stream_answer s i      what a stream source answers to its (i+1)-th Next with a live context:
                             Item, End or Err (a transient error once, a fatal error for ever)
-     spipe_agree n p1 p2    the same for stream pipelines, with stream_answer
+     src_nc s               the source never looks at the context (SScriptNC): it answers a Next
+                            with an expired context exactly like a live one
+     spipe_agree n p1 p2    the same for stream pipelines, with stream_answer; corresponding
+                            sources must in addition have the same attitude to the context
+                            (src_nc equal) - otherwise one call with an expired context tells
+                            them apart (C07_lazy_prefix_determinacy_kind_refuted)
      pipe_resrc g p         p with every source (id, s) replaced by g id s
      resuffix n junk l      l with everything behind its first n answers replaced by junk
      ksteps k               the program "k Next calls"                                          *)
@@ -301,10 +306,35 @@ Theorem C07_lazy_prefix_determinacy_stream : forall cfg p1 p2 ops,
 Proof. exact stream_prefix_determinacy. Qed.
 
 Theorem C07_lazy_unread_irrelevant_stream : forall cfg p ops g,
+  (forall id s, src_nc (g id s) = src_nc s) ->
   (forall id s i, (i < pulls_in (run_stream_cfg cfg p (Steps ops)) id)%nat ->
                   stream_answer s i = stream_answer (g id s) i) ->
   run_stream_cfg cfg (pipe_resrc g p) (Steps ops) = run_stream_cfg cfg p (Steps ops).
 Proof. exact stream_unread_irrelevant. Qed.
+
+(* Why the sources must have the same attitude to the context: with agreement on the answers to
+   live calls alone (the statement as it was before context-ignoring sources existed) the
+   theorem is false - SScript [EvItem 1] and SScriptNC [EvItem 1] answer live calls alike, and
+   the program [CNext false] gets RErr (-1) from the first and RItem 1 from the second.
+   Theorem C07_lazy_prefix_determinacy_stream_live_answers_only : forall cfg p1 p2 ops,
+     pipe_agree_with (fun id s s2 => forall i, i < pulls_in (run p1 ops) id ->
+                                     stream_answer s i = stream_answer s2 i) p1 p2 ->
+     run p2 ops = run p1 ops.                                                     -- REFUTED *)
+Theorem C07_lazy_prefix_determinacy_kind_refuted :
+  exists p1 p2 ops,
+    pipe_agree_with
+      (fun id s s2 => forall i, (i < pulls_in (run_stream p1 (Steps ops)) id)%nat ->
+                                stream_answer s i = stream_answer s2 i) p1 p2 /\
+    run_stream p2 (Steps ops) <> run_stream p1 (Steps ops).
+Proof. exact stream_prefix_determinacy_kind_refuted. Qed.
+
+(* non-vacuity over a context-ignoring source: the call with the expired context completes the
+   chunk; the unread rest of the script is irrelevant *)
+Example C07_lazy_demo_stream_ctx_ignoring :
+  map so_res (ro_steps (run_stream spd_nc_demo (Steps spd_nc_ops)))
+  = [RErr 9; RItem (IL [1; 2]); RUnit] /\
+  run_stream spd_nc_demo2 (Steps spd_nc_ops) = run_stream spd_nc_demo (Steps spd_nc_ops).
+Proof. exact (conj (proj1 spd_nc_demo_run) spd_nc_demo_same). Qed.
 
 (* ---- run-level cumulative pull counts of the single combinators over a Slice, for EVERY k ----
    (after the end has been reported every further call asks the exhausted source once more;
@@ -491,6 +521,7 @@ Print Assumptions C07_lazy_unread_suffix_irrelevant.
 Print Assumptions C07_lazy_step.
 Print Assumptions C07_lazy_prefix_determinacy_stream.
 Print Assumptions C07_lazy_unread_irrelevant_stream.
+Print Assumptions C07_lazy_prefix_determinacy_kind_refuted.
 Print Assumptions C07_lazy_peek.
 Print Assumptions C07_lazy_map.
 Print Assumptions C07_lazy_first.
